@@ -52,6 +52,10 @@ def custom_vocab(rng, unknown_ok=None, n_macros=12, n_envs=5, full_cover_index=N
         envs[name] = D.M([rng.choice(ENV_SLOT_KINDS) for _ in range(rng.randint(0, 1))])
     envs['mathenv'] = D.M('', math=True)
     envs['mathenvb'] = D.M('{', math=True)
+    # mode changes given as chained deltas (ParsingStateDeltaChained, with a value-preserving second step and a None)
+    envs['mathenvc'] = D.M('', math=True, chained=True)
+    macros['txtc'] = D.M('{', ['text'], chained=True)
+    macros['mthc'] = D.M('{{', ['math', None], chained=True)
     macros['sym'] = D.M('')
     macros['symb'] = D.M('')
     macros['txt'] = D.M('{', ['text'])
@@ -67,6 +71,7 @@ def custom_vocab(rng, unknown_ok=None, n_macros=12, n_envs=5, full_cover_index=N
     macros['\\'] = D.M(['*', '[nospace'])
     macros['&'] = D.M('')
     macros['%'] = D.M('')
+    macros['aft'] = D.M('')     # carries a state change that lasts after the call (make_after_parsing_state_delta)
     macros['$'] = D.M('')       # escaped dollar: a macro token whose name is a math delimiter character
     macros['#'] = D.M('')
     specials = ['~', '--', '---', '&']
@@ -77,6 +82,10 @@ def custom_vocab(rng, unknown_ok=None, n_macros=12, n_envs=5, full_cover_index=N
         from pylatexenc.latexnodes import (LatexArgumentSpec, ParsingStateDeltaEnterMathMode,
                                            ParsingStateDeltaLeaveMathMode)
         from pylatexenc.latexnodes.parsers import LatexStandardArgumentParser
+
+        def chain(delta):
+            from pylatexenc.latexnodes import ParsingStateDeltaChained, ParsingStateDelta
+            return ParsingStateDeltaChained([delta, ParsingStateDelta(set_attributes=dict(enable_specials=True)), None])
 
         def argspecs(d):
             out = []
@@ -89,15 +98,24 @@ def custom_vocab(rng, unknown_ok=None, n_macros=12, n_envs=5, full_cover_index=N
                     delta = ParsingStateDeltaLeaveMathMode()
                 elif mode == 'math':
                     delta = ParsingStateDeltaEnterMathMode()
+                if delta is not None and d.get('chained'):
+                    delta = chain(delta)
                 out.append(LatexArgumentSpec(parser, parsing_state_delta=delta))
             return out
         db = LatexContextDb()
-        ms = [MacroSpec(n, argspecs(d)) for n, d in sorted(macros.items())]
+        def after_delta(parsed_node, **kw):
+            # a (value-preserving) change of the parsing state that outlives the call, as \\makeatletter-like macros make
+            from pylatexenc.latexnodes import ParsingStateDelta
+            return ParsingStateDelta(set_attributes=dict(enable_specials=True))
+        ms = [MacroSpec(n, argspecs(d), **({'make_after_parsing_state_delta': after_delta} if n == 'aft' else {}))
+              for n, d in sorted(macros.items())]
         es = []
         for n, d in sorted(envs.items()):
             kw = {}
             if d.get('math'):
                 kw['body_parsing_state_delta'] = ParsingStateDeltaEnterMathMode()
+                if d.get('chained'):
+                    kw['body_parsing_state_delta'] = chain(kw['body_parsing_state_delta'])
             es.append(EnvironmentSpec(n, argspecs(d), **kw))
         for n in VERB_ENVS:
             es.append(EnvironmentSpec(n, '', make_body_parser=_verb_body_parser(n)))
